@@ -6,6 +6,8 @@ Decided by (lean/TallyVerif/Props/C14.lean, model lean/TallyVerif/Model/Migrate.
   per_rule_agree         migrated rule matches ⇔ CSV tuple matches          (H_upper, H_empty)
   migration_preserves    both classifiers: same merchant/category/subcategory and tag set (via C01 / C02)
   structure_*            the generated file parses back to one rule per CSV row
+  date_range_equiv / date_range_preserved / key_le_iff_chronological / range_across_years_holds_in_both
+                         the condition generated for [date:A..B] holds exactly on A ≤ d ≤ B, for every pair of ends (§7)
   + the counterexample theorems for the pinned converter (D14a, D14b) and for relative dates (D14c).
 
 Tie (every run, on the tree under test):
@@ -22,6 +24,11 @@ Generator classes added after the seeded-regression round: rows sharing all outp
 spellings, exact duplicates) with group-structured patterns (numbered/named groups and back-references, conditional groups, leading
 inline flags); amount thresholds with 7+ significant digits and transactions on their precision probes. search() draws half of its
 cases from these classes at a higher density.
+Calendar stream (round 4): files whose rows carry [date:A..B] ranges with both ends on, or one day off, a month / year boundary
+(1st, last day, Jan 1, Dec 31, Feb 29, the 28th), within one year or reaching several years on, same-numbered or different months at
+the two ends; the oracle runs both real pipelines once per file and classifies one transaction per PROBE DATE (1st, 15th, last day of
+every month from the month before the range to the month after it, the year ends around it, each end ±1 day). search() draws every
+sixth case (thorough: every fourth) from this stream.
 The implementation may be the pinned converter or carry the D14a / D14b repairs: the correspondence detects
 which (`fixA`, `fixB`) and uses the matching model; the PROPERTY ORACLE below does not care.
 
@@ -386,6 +393,123 @@ def boundary_txn(r, desc, hints, base):
     return {'description': desc, 'amount': float(amount), 'date': d}
 
 
+# ---- date ranges aligned to the calendar ("the whole of March", "all of 2025", "December 2024 up to the end of December 2025")
+
+ONE_DAY = datetime.timedelta(days=1)
+LEAP_YEARS = [2016, 2020, 2024, 2028]
+
+
+def month_last(y, m):
+    return datetime.date(y + (m == 12), m % 12 + 1, 1) - ONE_DAY
+
+
+def on_calendar_boundary(d):
+    """first or last day of a month"""
+    try:
+        return d.day == 1 or (d + ONE_DAY).day == 1
+    except OverflowError:
+        return True
+
+
+def gen_calendar_range(r):
+    """The two ends of a [date:A..B] modifier, both ON a calendar boundary or one day off it: A = the 1st of a month (Jan 1 often),
+    the day before / after it, the last day of a month, seldom a mid-month day; B = the last day of a month (Dec 31 and the leap
+    February 29 often), the day before / after it (so also Jan 1 and the 28th of a leap February), the 1st of a month, the 28th,
+    seldom a mid-month day.  The range covers part of one year or 1, 2, 3, 5 further years; the month of B is the SAME-numbered month
+    as that of A (40 %), December, the month before A's (whole years counted from A) or any month; 12 % run from a January to a
+    December.  A range that would be reversed is moved one year on (85 %) or kept as it is (an empty range is a legal CSV modifier)."""
+    y1 = r.choice([2019, 2020, 2021, 2022, 2023, 2023, 2024, 2024, 2024, 2025, 2025, 2026])
+    m1 = r.choice([1, 1, 2, 2, 3, 12, 12, r.randint(1, 12), r.randint(1, 12)])
+    y2 = y1 + r.choice([0, 0, 0, 0, 0, 0, 1, 1, 1, 1, 2, 2, 3, 5])
+    k = r.random()
+    m2 = m1 if k < 0.4 else 12 if k < 0.55 else (m1 - 2) % 12 + 1 if k < 0.7 else r.randint(1, 12)
+    if r.random() < 0.12:       # whole calendar years: January … December
+        m1, m2 = 1, 12
+    if r.random() < 0.15:       # the range ends in a leap February
+        m2, y2 = 2, min((y for y in LEAP_YEARS if y >= y2), default=2028)
+    ks = r.choice(['first'] * 12 + ['first-1', 'first+1', 'first-1', 'first+1', 'last', 'mid'])
+    ke = r.choice(['last'] * 12 + ['last-1', 'last+1', 'last-1', 'last+1', 'first', 'day28', 'mid'])
+
+    def ends(y2):
+        first, last = datetime.date(y1, m1, 1), month_last(y2, m2)
+        a = {'first': first, 'first-1': first - ONE_DAY, 'first+1': first + ONE_DAY, 'last': month_last(y1, m1),
+             'mid': first.replace(day=15)}[ks]
+        b = {'last': last, 'last-1': last - ONE_DAY, 'last+1': last + ONE_DAY, 'first': last.replace(day=1),
+             'day28': last.replace(day=28), 'mid': last.replace(day=14)}[ke]
+        return a, b
+    a, b = ends(y2)
+    if a > b and r.random() < 0.85:
+        a, b = ends(y2 + 1)
+    return a, b
+
+
+def calendar_probe_dates(ranges):
+    """The dates a calendar-aligned range has to be tried on: the first, the 15th and the last day of EVERY month from the month before
+    the range to the month after it; Jan 1 and Dec 31 of every year it touches and Dec 31 / Jan 1 of the years just outside; each end of
+    the range and the day before and after it."""
+    out = set()
+    for a, b in ranges:
+        lo, hi = min(a, b), max(a, b)
+        for d in (a, b):
+            out.update([d - ONE_DAY, d, d + ONE_DAY])
+        y, m = (lo.year, lo.month - 1) if lo.month > 1 else (lo.year - 1, 12)
+        stop = (hi.year, hi.month + 1) if hi.month < 12 else (hi.year + 1, 1)
+        while (y, m) <= stop:
+            out.update([datetime.date(y, m, 1), datetime.date(y, m, 15), month_last(y, m)])
+            y, m = (y, m + 1) if m < 12 else (y + 1, 1)
+        for y in range(lo.year, hi.year + 1):
+            out.update([datetime.date(y, 1, 1), datetime.date(y, 12, 31)])
+        out.update([datetime.date(lo.year - 1, 12, 31), datetime.date(hi.year + 1, 1, 1)])
+    return sorted(out)
+
+
+def gen_calendar_case(r):
+    """One CSV rule file whose rows carry calendar-aligned date ranges (alone; with a [month=…] or an amount modifier; two ranges on
+    one row), mostly with patterns that match the description, often followed by a row without modifiers (what the transaction
+    falls back to outside the range) + the transactions of `calendar_probe_dates` (`sweep`: same description and amount, one per
+    date).  `txn` is one of them (the case as the single-transaction streams see it)."""
+    desc = gen_desc(r)
+    words = [w for w in re.split(r'[^A-Za-z0-9]+', desc.upper()) if w] or ['X']
+    amount = r.choice([5.0, 20.5, 50.0, 99.99, 100.0, 1500.0])
+    sp = lambda s: s.replace('§', r.choice(['', '', '', ' ']))
+    n = r.choice([1, 2, 2, 3, 3, 4])
+    rows, ranges, fallback = [], [], False
+    for i in range(n):
+        tok, other = r.choice(words), r.choice(G.MERCHANT_TOKENS)
+        k = r.random()
+        if k < 0.3:
+            pat = gen_pattern(r, desc)
+        else:
+            pat = r.choice([tok, tok, tok.lower(), '^' + words[0], tok + r'\b', f'{other}|{tok}', tok + '.*', '(?i)' + tok.lower()])
+        mods = ''
+        if i == n - 1 and n > 1 and r.random() < 0.4:
+            fallback = True         # last row without modifiers: what a transaction outside the ranges falls back to
+        else:
+            for _ in range(2 if r.random() < 0.1 else 1):
+                a, b = gen_calendar_range(r)
+                ranges.append((a, b))
+                mods += sp(f'[date§:§{a.isoformat()}§..§{b.isoformat()}]')
+            k = r.random()
+            if k < 0.15:
+                a, b = ranges[-1]
+                mods += f'[month={r.choice([a.month, b.month, b.month % 12 + 1, r.randint(1, 12)])}]'
+            elif k < 0.3:
+                mods = r.choice(['[amount>5]', '[amount>=5]', '[amount<=1500]', '[amount<1500.01]', '[amount:5-1500]', '[amount=50]']) + mods
+            elif k < 0.36:
+                d = r.choice(ranges[-1])
+                mods += f'[date={d.isoformat()}]'
+        cat = r.choice(G.CATS)
+        tags = '|'.join(r.sample(['business', 'Travel', 'x y', 'promo', 'RECURRING'], r.choice([0, 0, 1, 2])))
+        rows.append([pat + mods, f'M{i} {tok[:6]}', cat[0], cat[1], tags])
+    if not ranges:
+        ranges.append(gen_calendar_range(r))
+    sweep = calendar_probe_dates(ranges)
+    txn = {'description': desc, 'amount': amount, 'date': r.choice(sweep)}
+    layout = {'tags_column': r.random() < 0.85, 'comments': r.random() < 0.3, 'blank': r.random() < 0.3}
+    return {'rows': rows, 'layout': layout, 'txn': txn, 'corner': None, 'share': [None] * n, 'sweep': sweep, 'calendar': True,
+            'fallback': fallback}
+
+
 CORNER_KINDS = ['relative-first', 'relative-later', 'legacy-expression', 'empty-rule', 'untrimmed', 'tag-syntax', 'upper']
 
 
@@ -562,6 +686,8 @@ def row_features(rule, txn):
         f.add('amount-eq')          # strictly inside the epsilon window of an [amount=v] modifier
     if any(v is not None and float('%.6g' % v) != v for c in parsed.amount_conditions for v in (c.value, c.min_value, c.max_value)):
         f.add('many-digit-threshold')   # an amount threshold that needs 7 or more significant digits
+    if any(c.operator == ':' and (on_calendar_boundary(c.start_date) or on_calendar_boundary(c.end_date)) for c in parsed.date_conditions):
+        f.add('calendar-range')     # a [date:A..B] range with an end on the first / last day of a month
     if not (category or '') and not tags:
         f.add('empty-rule')
     if any((x or '') != (x or '').strip() for x in (merchant, category, subcategory)) or not (merchant or '').strip():
@@ -571,6 +697,31 @@ def row_features(rule, txn):
     if re_search(pattern, txn['description'].upper()) != re_search(pattern, txn['description']):
         f.add('upper')              # H_upper fails for this very (pattern, description) pair
     return f
+
+
+def modifiers_disagree(parsed, txn):
+    """check_all_conditions(parsed, amount, date) against the evaluation of the expression generated for these modifiers (both by the
+    implementation's own primitives).  Only used to NAME a failure after the modifier class instead of the pattern class."""
+    from tally import merchant_engine as ME, expr_parser as EP
+    from tally.modifier_parser import check_all_conditions
+    if not (parsed.amount_conditions or parsed.date_conditions):
+        return False
+    try:
+        text = ME._modifier_to_expr(parsed)
+        chk = bool(check_all_conditions(parsed, txn['amount'], txn.get('date')))
+        if not text:
+            return not chk
+        t = {'description': txn['description'], 'amount': txn['amount'] or 0}
+        if txn.get('date'):
+            t['date'] = txn['date']
+        try:
+            with quiet():
+                hit = bool(EP.matches_transaction(text, t))
+        except Exception:
+            hit = False
+        return hit != chk
+    except Exception:
+        return False
 
 
 def legacy_rule_truth(rule, txn):
@@ -645,6 +796,8 @@ def oracle(case, b):
             rule = rules[i]
             if legacy_rule_truth(rule, txn) != engine_rule_truth(er, txn):
                 resp |= (feats[i] or {'other'})
+                if modifiers_disagree(rule[4], txn):
+                    resp.add('modifiers-disagree')  # the row's modifiers ALONE answer differently on the two sides for this transaction
                 base.setdefault('rows_matching_differently', []).append(list(rule[:4]))
                 break
     if not resp:
@@ -660,6 +813,67 @@ def oracle(case, b):
                          'required': obs['legacy']})
 
 
+def run_pipelines_many(csv_text, txns, b):
+    """`run_pipelines` for SEVERAL transactions against one migration of the file: a list of (legacy, migrated) answers, or None when
+    the generated file does not load / the migration fails (the caller then goes through `oracle`)."""
+    from tally import merchant_utils as MU, cli
+    cfg = os.path.join(b.dir, f'cfg{b.n}')
+    b.n += 1
+    os.makedirs(cfg)
+    csv_path = os.path.join(cfg, 'merchant_categories.csv')
+    with open(csv_path, 'w', encoding='utf-8', newline='') as f:
+        f.write(csv_text)
+
+    def answers(rules):
+        out = []
+        for txn in txns:
+            m, c, s, info = MU.normalize_merchant(txn['description'], rules, amount=txn['amount'], txn_date=txn.get('date'),
+                                                  field=copy.deepcopy(txn.get('field')))
+            out.append([m, c, s, tagset(info)])
+        return out
+    try:
+        MU.clear_engine_cache()
+        legacy = answers(MU.get_all_rules(csv_path))
+        with quiet():
+            ok = cli._migrate_csv_to_rules(csv_path, cfg, backup=False)
+        rp = os.path.join(cfg, 'merchants.rules')
+        if not ok or not os.path.exists(rp):
+            return None
+        MU.clear_engine_cache()
+        with quiet():
+            rules_new = MU.get_all_rules(rp)
+            if MU.get_cached_engine() is None:
+                return None
+            migrated = answers(rules_new)
+    except Exception:
+        return None
+    finally:
+        MU.clear_engine_cache()
+    return list(zip(legacy, migrated))
+
+
+def oracle_sweep(case, b):
+    """The property oracle on every transaction of case['sweep'] (the case's description and amount on each probe date).  Both real
+    pipelines are built once for the file; a date on which they answer differently goes through `oracle` (one call per distinct
+    pair of answers) so that the failure carries the same fields and label as any other.  Returns (failures, transactions tried)."""
+    csv_text = case.get('csv_text') or render_csv(case)
+    txns = [dict(case['txn'], date=d) for d in case['sweep']]
+    res = run_pipelines_many(csv_text, txns, b)
+    if res is None:
+        return [], 0            # does not load: reported by the single-transaction oracle on case['txn']
+    out, seen = [], set()
+    for txn, (legacy, migrated) in zip(txns, res):
+        if legacy != migrated:
+            key = json.dumps([legacy, migrated])
+            if key in seen or len(seen) >= 6:
+                continue
+            seen.add(key)
+            pf = oracle(dict(case, csv_text=csv_text, txn=txn), b)
+            if pf:
+                out.append(pf)
+    return out, len(txns)
+
+
 def single_row_content(rule, for_match_text=False):
     from tally import merchant_engine as ME
     row = tuple(rule[:5]) + (rule[6],)
@@ -672,7 +886,8 @@ LABEL = {'relative-date': 'D14c.relative-date-modifier', 'legacy-expression': 'D
          'upper': 'D14h.description-upper-not-case-equivalent', 'untrimmed': 'D14f.untrimmed-or-empty-name',
          'tag-syntax': 'D14g.tag-with-comma-or-parenthesis', 'backslash-or-quote': 'D14a.pattern-with-backslash-or-quote',
          'amount-eq': 'D14b.amount-eq-epsilon', 'empty-rule': 'D14e.row-without-category-and-tags',
-         'many-digit-threshold': 'other.amount-threshold-with-7-or-more-significant-digits'}     # never a known finding
+         'many-digit-threshold': 'other.amount-threshold-with-7-or-more-significant-digits',      # never a known finding
+         'calendar-range': 'other.date-range-on-month-or-year-boundaries'}                       # never a known finding
 
 
 def load_label(feats):
@@ -683,8 +898,12 @@ def load_label(feats):
 
 
 def diff_label(feats, txn, rules):
-    for k in ('relative-date', 'legacy-expression', 'upper', 'untrimmed', 'tag-syntax', 'many-digit-threshold', 'backslash-or-quote',
-              'amount-eq'):
+    # the classes of the known findings first; then, when the row's modifiers alone answer differently on the two sides, the modifier
+    # classes before the pattern class (none of these four labels can be a known finding)
+    tail = ('many-digit-threshold', 'backslash-or-quote', 'amount-eq', 'calendar-range')
+    if 'modifiers-disagree' in feats:
+        tail = ('many-digit-threshold', 'amount-eq', 'calendar-range', 'backslash-or-quote')
+    for k in ('relative-date', 'legacy-expression', 'upper', 'untrimmed', 'tag-syntax') + tail:
         if k in feats:
             return LABEL[k]
     return 'other.classification-differs'
@@ -1197,6 +1416,56 @@ def stream_coverage(cases):
     return cov
 
 
+def calendar_coverage(cal_cases):
+    """Counts of what the calendar stream produced (for the evidence): shapes of the ranges as the CSV LOADER parsed them, and where
+    the probe transactions fall."""
+    from tally.modifier_parser import parse_pattern_with_modifiers, ModifierParseError
+    cov = {'files': len(cal_cases), 'ranges': 0, 'whole_single_month': 0, 'whole_single_year': 0, 'whole_years_several': 0,
+           'whole_months_first_to_last_same_year': 0, 'first_of_month_M_to_last_of_month_M_of_a_LATER_year': 0,
+           'first_to_last_of_different_months_across_years': 0, 'end_on_Feb_29': 0, 'end_on_Dec_31': 0, 'start_on_Jan_1': 0,
+           'an_end_one_day_off_a_month_boundary': 0, 'reversed(empty)': 0, 'crossing_a_year_end': 0, 'spanning_3_or_more_calendar_years': 0,
+           'rows_with_range_and_month_or_date_or_amount_modifier': 0, 'rows_with_two_ranges': 0, 'files_with_fallback_row': 0,
+           'probe_dates': 0, 'probe_dates_inside_a_range': 0, 'probe_dates_inside_a_range_after_its_first_month': 0,
+           'probe_dates_on_a_range_end_or_the_day_outside': 0}
+    for case in cal_cases:
+        ranges = []
+        for row in case['rows']:
+            try:
+                parsed = parse_pattern_with_modifiers(row[0].strip())
+            except ModifierParseError:
+                continue
+            rr = [(c.start_date, c.end_date) for c in parsed.date_conditions if c.operator == ':']
+            cov['rows_with_two_ranges'] += len(rr) > 1
+            cov['rows_with_range_and_month_or_date_or_amount_modifier'] += bool(rr) and (
+                bool(parsed.amount_conditions) or any(c.operator != ':' for c in parsed.date_conditions))
+            ranges += rr
+        cov['files_with_fallback_row'] += bool(case.get('fallback'))
+        for a, b in ranges:
+            cov['ranges'] += 1
+            aligned = a.day == 1 and (b + ONE_DAY).day == 1 and a <= b
+            cov['whole_single_month'] += aligned and (a.year, a.month) == (b.year, b.month)
+            cov['whole_single_year'] += aligned and a.year == b.year and (a.month, b.month) == (1, 12)
+            cov['whole_years_several'] += aligned and a.year < b.year and (a.month, b.month) == (1, 12)
+            cov['whole_months_first_to_last_same_year'] += aligned and a.year == b.year and a.month != b.month
+            cov['first_of_month_M_to_last_of_month_M_of_a_LATER_year'] += aligned and a.year < b.year and a.month == b.month
+            cov['first_to_last_of_different_months_across_years'] += aligned and a.year < b.year and a.month != b.month
+            cov['end_on_Feb_29'] += (b.month, b.day) == (2, 29)
+            cov['end_on_Dec_31'] += (b.month, b.day) == (12, 31)
+            cov['start_on_Jan_1'] += (a.month, a.day) == (1, 1)
+            cov['an_end_one_day_off_a_month_boundary'] += any(not on_calendar_boundary(d) and (on_calendar_boundary(d - ONE_DAY) or
+                                                               on_calendar_boundary(d + ONE_DAY)) for d in (a, b))
+            cov['reversed(empty)'] += a > b
+            cov['crossing_a_year_end'] += a <= b and a.year < b.year
+            cov['spanning_3_or_more_calendar_years'] += a <= b and b.year - a.year >= 2
+        for d in case['sweep']:
+            cov['probe_dates'] += 1
+            inside = [(a, b) for a, b in ranges if a <= d <= b]
+            cov['probe_dates_inside_a_range'] += bool(inside)
+            cov['probe_dates_inside_a_range_after_its_first_month'] += any((d.year, d.month) > (a.year, a.month) for a, b in inside)
+            cov['probe_dates_on_a_range_end_or_the_day_outside'] += any(abs((d - e).days) <= 1 for ab in ranges for e in ab)
+    return {k: int(v) for k, v in cov.items()}
+
+
 def nontrivial(obs_legacy, case):
     return obs_legacy[1] != 'Unknown' or bool(obs_legacy[3])
 
@@ -1230,27 +1499,36 @@ def run(ctx):
     n = 350 if ctx.quick else 50000
     cases = [{'csv_text': c, 'txn': t, 'witness': name, 'corner': name.split('-')[0] == 'D14h' and 'upper' or None}
              for name, c, t in WITNESSES] + gen_cases(r, n)
+    # date ranges aligned to the calendar, each file with a transaction on every month in and around its ranges (drawn AFTER the
+    # stream above, so that stream is the same as before for a given VERIF_SEED)
+    cal_cases = [gen_calendar_case(r) for _ in range(80 if ctx.quick else 3000)]
     nontriv = set()
     classes = {}
+    sweep_txns = 0
     with Scratch() as b:
         # ---- property oracle on every case (implementation only)
-        for case in cases:
-            pf = oracle(case, b)
+        for case in cases + cal_cases:
+            pfs = [oracle(case, b)]
             evaluations += 1
-            if pf:
+            if case.get('sweep'):
+                more, k = oracle_sweep(case, b)
+                pfs += more
+                evaluations += k
+                sweep_txns += k
+            for pf in pfs:
+                if not pf:
+                    continue
                 if case.get('witness'):
                     pf['witness'] = case['witness']
                 prop_fail.append(pf)
                 classes[pf['class']] = classes.get(pf['class'], 0) + 1
-            else:
-                pass
         # ---- correspondence
         try:
             from tally import merchant_utils as MU
             from tally.modifier_parser import parse_pattern_with_modifiers, ModifierParseError
             patterns = ['\\bUBER\\b', '(A)\\1', 'A\\\\B', 'SAY "HI"', 'plain', "JOE'S", '\\', '"', '\\"', 'a\\\\"b', '', 'é\\d"']
             mod_items = []
-            for case in cases:
+            for case in cases + cal_cases:
                 rows = case.get('rows')
                 if not rows:
                     continue
@@ -1264,6 +1542,9 @@ def run(ctx):
                         mod_items.append((parsed, case['txn']))
                         if r.random() < 0.15:
                             mod_items.append((parsed, dict(case['txn'], date=None)))
+                        if case.get('sweep'):       # the model's reading of the range on further probe dates of the file
+                            for d in r.sample(case['sweep'], min(4, len(case['sweep']))):
+                                mod_items.append((parsed, dict(case['txn'], date=d)))
             for name, c, t in WITNESSES:
                 for line in c.split('\n')[1:]:
                     if line and not line.startswith('#'):
@@ -1283,7 +1564,10 @@ def run(ctx):
             ctx.notes['implementation_corresponds_to_model_with'] = {'fixA (D14a escaping)': fixA, 'fixB (D14b epsilon)': fixB,
                                                                      'fixE (D14e rows without category and tags skipped)': fixE}
             m = len(cases) if ctx.quick else 8000
-            evaluations += classify_stream(ctx, cases[:m], bool(fixA), bool(fixB), fixE, b)
+            cal_corr = []
+            for case in cal_cases[:len(cal_cases) if ctx.quick else 1000]:      # each calendar file on three of its probe dates
+                cal_corr += [case] + [dict(case, txn=dict(case['txn'], date=r.choice(case['sweep']))) for _ in range(2)]
+            evaluations += classify_stream(ctx, cases[:m] + cal_corr, bool(fixA), bool(fixB), fixE, b)
         except Exception as e:
             import traceback
             ctx.obligation('correspondence:driver', 'correspondence', False, error=traceback.format_exc()[-1500:])
@@ -1317,12 +1601,26 @@ def run(ctx):
         ctx.notes['widened_generator_coverage'] = sc
     except Exception as e:
         sc = {'error': str(e)}
+    try:
+        cc = calendar_coverage(cal_cases)
+        cc['transactions_tried_by_the_oracle(one per probe date and file)'] = sweep_txns
+        ctx.notes['calendar_range_coverage'] = cc
+    except Exception as e:
+        cc = {'error': str(e)}
     ctx.cov['rule'] += ('; ALSO: rows sharing merchant/category/subcategory/tags/modifiers with the previous row, with an earlier row, '
                         'or exact duplicates, mostly with group-structured patterns (numbered and named groups, numbered and named '
                         'back-references, conditional groups, leading inline flags (?i) (?s) (?m) (?a)); amount thresholds with 7+ '
                         'significant digits (10000+ with cents, 7–20 digit integers, 5 decimals, beyond 2**53) with transactions on their '
                         'precision probes (the value written with 3–15 significant digits / 0–3 decimals / as an integer / as a float32, '
                         'and the midpoint); counts: ' + json.dumps(sc))
+    ctx.cov['rule'] += ('; ALSO (calendar stream): files whose rows carry [date:A..B] ranges with both ends on or one day off a calendar '
+                        'boundary (A: 1st of a month, Jan 1, the day before/after, a month\'s last day; B: last day of a month, Dec 31, '
+                        'Feb 29 of a leap year, the day before/after, the 28th, a 1st), within one year or reaching 1, 2, 3, 5 years on, '
+                        'same-numbered or different months at the two ends, alone or with [month=], [date=], an amount modifier or a '
+                        'second range, often followed by a fallback row without modifiers; the oracle runs both real pipelines on one '
+                        'transaction per PROBE DATE: the 1st, 15th and last day of every month from the month before the range to the '
+                        'month after it, Jan 1 / Dec 31 of every touched year and of the years just outside, each end ±1 day; counts: '
+                        + json.dumps(cc))
     for case in cases[len(WITNESSES):len(WITNESSES) + 3]:
         ctx.sample({'csv': render_csv(case), 'txn': jtxn(case['txn'])})
 
@@ -1331,12 +1629,20 @@ def run(ctx):
         with Scratch() as b2:
             # half of the cases from the focused classes: runs of rows sharing their outputs with group-structured patterns,
             # many-digit thresholds with transactions on their precision probes
-            for case in gen_cases(r, 6000 if ctx.quick else 40000, corners=False, focus=True):
-                pf = oracle(case, b2)
-                if pf and not classify(pf):
-                    out.append(pf)
+            # every sixth case (thorough: every fourth): a file with calendar-aligned date ranges, tried on all of its probe dates
+            tried, every = 0, 6 if ctx.quick else 4
+            for i in range(6000 if ctx.quick else 40000):
+                if i % every == every - 1:
+                    pfs, k = oracle_sweep(gen_calendar_case(r), b2)
+                    tried += k
+                else:
+                    pfs = [oracle(gen_case(r, None, focus=i % 2 == 0), b2)]
+                    tried += 1
+                pfs = [pf for pf in pfs if pf and not classify(pf)]
+                if pfs:
+                    out.append(pfs[0])
                     break
-        ctx.cov['evaluations'] += 6000
+        ctx.cov['evaluations'] += tried
         return out
 
     # the fixed witnesses first (D14a, D14b, D14c, …), then the smallest generated failing inputs
